@@ -120,7 +120,7 @@ def run(ctx):
     jobs, meta = [], []
     families = [("static", STATIC, dict(), ["order_parameter"], 1), ("static/2-panels", STATIC, dict(), ["order_parameter", "supercurrent"], 1),
                 ("dyn-eps", DYNEPS, dict(dyn_eps=True), ["order_parameter"], 1), ("static/k=2", STATIC, dict(k=2), ["vorticity"], 2)]
-    nper = 6 if q else 40
+    nper = 4 if q else 40
     for fam, consts, wargs, quantities, K in families:
         c = dict(consts, saves=([3, 5] if q else [2, 3, 5, 8]), K=1, Q=len(quantities))
         g = ctx.model_check("MonitorChannelGen", cfg("GSpec", c, REAL, ["Export"]), name=f"MonitorChannelGen[{fam}]",
